@@ -283,6 +283,39 @@ class Script:
         p = sers.dec_val(self.case["resp_packet"])
         return sd.Wrapped(p) if self.conv else p
 
+    async def close_client(self, client, st: dict) -> None:
+        """`await client.aclose()` by the handler itself, or (`by: "helper"`) by a task the handler starts and waits for
+        (a watchdog / a helper function run in the handler's task group): whoever closes, the client is closed when this returns"""
+        if st.get("by") == "helper":
+            t = asyncio.ensure_future(client.aclose())
+            await asyncio.wait({t})
+            t.result()
+        else:
+            await client.aclose()
+
+    async def run_oc_coro(self, oc: dict, client) -> None:
+        """on_connection() as a COROUTINE that does something (case field `oc_coro`): sleep, greeting, closes the client
+        (itself / through a helper task), sleeps again, returns normally.  After the close nothing may start on that client."""
+        log = self.log
+        log("conn")
+        await asyncio.sleep(0)
+        if oc.get("sleep"):
+            await asyncio.sleep(float(oc["sleep"]))
+        if oc.get("resp"):
+            try:
+                await client.send_packet(self.response())
+            except Exception as e:  # noqa: BLE001
+                log(f"resp-failed oc {exc_kind(e)}")
+            else:
+                self.nresp += 1
+                log("resp oc")
+        if oc.get("close"):
+            await self.close_client(client, oc)
+            log("closed-by-handler oc")
+        if oc.get("after"):
+            await asyncio.sleep(float(oc["after"]))
+        log("conn-done")
+
     async def run_gen(self, name: str, steps: list[dict], client):
         log = self.log
         log(f"gen {name} start")
@@ -293,7 +326,7 @@ class Script:
                     await asyncio.sleep(float(st["sleep"]))
                 if st.get("pre_close"):
                     # the handler closes the client BEFORE asking for this request (step 0: in the preamble of the generator)
-                    await client.aclose()
+                    await self.close_client(client, st)
                     log(f"closed-by-handler {name}")
                 to = st.get("timeout")
                 try:
@@ -315,7 +348,7 @@ class Script:
                         self.nresp += 1
                         log(f"resp {name}")
                 if st.get("close"):
-                    await client.aclose()
+                    await self.close_client(client, st)
                     log(f"closed-by-handler {name}")
         except GeneratorExit:
             how = "closed"
@@ -345,6 +378,8 @@ class ScriptedHandler(AsyncStreamRequestHandler[Any, Any]):
 
     def on_connection(self, client):
         oc = self.script.case.get("onconn")
+        if oc is None and self.script.case.get("oc_coro"):
+            return self.script.run_oc_coro(self.script.case["oc_coro"], client)
         if oc is None:
             async def coro() -> None:
                 self.script.log("conn")
